@@ -54,7 +54,7 @@ KEYS = {
     # values: one containing ':' and, later, '=' (a placeholder and a '>=' range); one equal to the current EXPANDED value of its item (pins it)
     'pair': [('Pair', 'O-O', ['as.lj 0.2 2.5', 'as.morse 1.8 2.0 0.6', '>0 as.buck 1000.0 0.3 ${Species:O.charge} >=1.5 as.zero']),
              ('Pair', 'U - O', ['as.lj 0.3 2.2', 'cbuck 800.0 0.35']), ('Variables', 'A_uo', ['900.0']), ('Pair', 'Th-O', ['as.zbl 8 8\n>=0.8 as.buck 1000.0 0.3 32.0', 'as.lj 0.4 2.1']),       # (a value that spans two lines)
-             ('Tabulation', 'nr', ['5']), ('Tabulation', 'dr', ['0.25']), ('Potential-Form', 'cbuck(r, A, rho)', ['A*exp(-r/rho)']),
+             ('Tabulation', 'nr', ['5']), ('Tabulation', 'dr', ['0.25']), ('Tabulation', 'target', [' LAMMPS ']),      # (blanks around a value, as in 'target :  LAMMPS ') ('Potential-Form', 'cbuck(r, A, rho)', ['A*exp(-r/rho)']),
              ('Table-Form:tf', 'y', ['9 8 7 6']), ('Species', 'O.charge', ['-1.5']), ('NewSection', 'k', ['v']), ('Pair', 'U-U', ['as.zero']),
              ('Variables', 'newvar', ['1.5'])],
     'eamnp': [('EAM-Embed', 'U', ['>=0 as.polynomial 0.5 -2.0']), ('EAM-Density', 'O', ['>=0 as.polynomial 1.0 0.5']), ('Species', 'U.lattice_constant', ['5.5']),
@@ -104,6 +104,9 @@ def cases(tier):
                 out.append(dict(route='cli', file=fname, ops=h, grouped=True))
     for fname in FILES:
         out.append(dict(route='cli', file=fname, ops=[], grouped=False))
+    # argument order of the manual's quick start: potable --override-item SECTION:KEY=VALUE POTENTIAL_DEFN_FILE OUTPUT_FILE
+    for flag, item in (('--override-item', 'Tabulation:nr=5'), ('-e', 'Tabulation:nr=5'), ('--add-item', 'Pair:Th-O=as.lj 0.4 2.1'), ('--remove-item', 'Pair:U-U')):
+        out.append(dict(route='cli-order', file='pair', flag=flag, item=item))
     # long command lines: every sequence of 4 and 5 overrides over three items (repeats: the last occurrence of an item wins)
     items = [('Tabulation', 'nr', ['5', '6', '7', '8', '9']), ('Tabulation', 'cutoff', ['2.5', '3.0', '3.5', '4.5', '5.0']),
              ('Pair', 'O-O', ['as.lj 0.2 2.5', 'as.morse 1.8 2.0 0.6', 'as.lj 0.3 2.2', 'as.zero', 'as.hbnd 120.0 35.0'])]
@@ -309,7 +312,7 @@ def expanded_items(ref):
             key = norm('%s:%s' % (m.group(1), m.group(2)))
             return ex(d[key], depth + 1) if key in d and depth < 5 else m.group(0)
         return re.sub(r'\$\{([^}:]+):([^}]+)\}', sub, v)
-    return [(k, ex(v)) for k, v in items]
+    return [(k, ex(v).strip()) for k, v in items]        # (a file's values are read without surrounding blanks)
 
 
 def parse_items(stdout):
@@ -322,5 +325,21 @@ def parse_items(stdout):
     return out
 
 
+def run_cli_order(case):
+    """options BEFORE the positional arguments, as in docs/quick_start/quickstart.rst ('potable --override-item Tabulation:target=GULP basak.aspot potentials.lib')"""
+    text = FILES[case['file']]().render()
+    first = R.potable(text, args=[case['flag'], case['item']], options_first=True)
+    last = R.potable(text, args=[case['flag'], case['item']])
+    viol = []
+    a = (first.status, first.out_bytes, type(first.exc).__name__)
+    b = (last.status, last.out_bytes, type(last.exc).__name__)
+    if a != b:
+        viol.append(dict(sig='documented-argument-order-refused', msg='potable %s %s FILE OUT: exit status %r (%s); with the positional arguments first: exit status %r, %d bytes'
+                         % (case['flag'], case['item'], first.status, first.stderr.strip().split('\n')[-1][:160], last.status, len(last.out_bytes or '')), detail={}))
+    return dict(outcome='ok:cli-order' if not viol else 'violation', nontrivial=True, evals=2, violations=viol, states=['cli-order'], transitions=2, traces=1)
+
+
 def run_case(case):
+    if case['route'] == 'cli-order':
+        return run_cli_order(case)
     return run_api(case) if case['route'] == 'api' else run_cli(case)
